@@ -35,12 +35,16 @@ def arg_profile(s, t, T):
 
 def judge(s, t, ans, T, prim, consistent, out, witness, api='is_subtype'):
     """Judge one query.  Returns 'ok' | 'violation' | 'unjudged'."""
-    ref = terms.refsub3(s, t, T)
+    try:
+        ref = terms.refsub(s, t, T)
+    except terms.Unknown as u:
+        out.skip('oracle-unknown:' + str(u).split()[0])
+        return 'unjudged'
+    except RecursionError:
+        out.skip('oracle-unknown:recursion')
+        return 'unjudged'
     shape = (terms.shape(s), terms.shape(t), bool(ans))
     nontrivial = s != t and s != ('bot',)
-    if ref is None:
-        out.skip('oracle-unknown')
-        return 'unjudged'
     if ans and not ref:
         out.violation({'rule': 'unsound', 'api': api, 'cause': arg_profile(s, t, T)},
                       '%s(%s, %s) answered True but the declarative relation says no' % (
